@@ -559,12 +559,14 @@ theorem adjust_dist_source_eq_model (w wd : Nat) (s : RbV.Model.MyersSimple.St w
 /-- **`State::adjust_by_mask(mask)`, as written** (`count_ones`, `u64` wrapping arithmetic, `from_u64(..).unwrap()`) = the model's
 `adjustByMask` when the result neither underflows nor leaves `DistType` (`adjustByMask_spec` of `Lemmas/TracebackState.lean`
 shows that along a traceback) -/
-theorem adjust_by_mask_source_eq_model (w wd : Nat) (s : RbV.Model.MyersSimple.St w) (mask : BitVec w) (hwd : wd ≤ 64)
+theorem adjust_by_mask_source_eq_model (w wd : Nat) (s : RbV.Model.MyersSimple.St w) (mask : BitVec w) (hwd : wd < 64)
+    (hw63 : w < 2 ^ 63)
     (hlo : RbV.Model.MyersTraceback.popc (s.pv &&& mask) ≤ s.dist + RbV.Model.MyersTraceback.popc (s.mv &&& mask))
-    (hhi : s.dist + w < 2 ^ wd) :
+    (hd : s.dist < 2 ^ wd)
+    (hhi : s.dist + RbV.Model.MyersTraceback.popc (s.mv &&& mask) - RbV.Model.MyersTraceback.popc (s.pv &&& mask) < 2 ^ wd) :
     RbV.Gen.SrcMyersTbMask.adjustByMask (w := w) (wd := wd) (pv := s.pv.toNat) (mv := s.mv.toNat) (dist := s.dist)
         (mask := mask.toNat) = RbV.Rs.Res.ok (RbV.Model.MyersTraceback.adjustByMask s mask).dist :=
-  RbV.Thm.GenSrcMyersTb2.adjustByMask_eq_model w wd s mask hwd hlo hhi
+  RbV.Thm.GenSrcMyersTb2.adjustByMask_eq_model w wd s mask hwd hw63 hlo hd hhi
 
 /-- **the column reader of the handler reads the ring as the model says**: the `k`-th `next()` of
 `states[..=pos].iter().rev().chain(states.iter().rev().cycle())` (semantics `Rs.RevCyc`: first part, then the second repeated)
@@ -577,12 +579,15 @@ theorem ring_reader_source_reads_slot {α : Type} (store : List α) (pos k : Nat
 /-- **`ShortTracebackHandler::new(m, pos, states)` and `move_to_left()`, as written** = `Handler.new m rd` and
 `Handler.moveToLeft rd` of the pipeline model, `rd k = readStore store pos k` -/
 theorem traceback_handler_new_move_to_left_source_eq_model (w wd m pos : Nat) (store : List (RbV.Model.MyersSimple.St w))
-    (h : RbV.Model.MyersTraceback.Handler w) (hm1 : 1 ≤ m) (hmw : m ≤ w) (hm64 : m < 2 ^ 64) (hwd : wd ≤ 64)
-    (hp : pos < store.length)
+    (h : RbV.Model.MyersTraceback.Handler w) (hm1 : 1 ≤ m) (hmw : m ≤ w) (hm64 : m < 2 ^ 64) (hwd : wd < 64)
+    (hw63 : w < 2 ^ 63) (hp : pos < store.length)
     (hlo : RbV.Model.MyersTraceback.popc ((RbV.Model.MyersTraceback.readStore store pos h.taken).pv &&& h.leftMask) ≤
       (RbV.Model.MyersTraceback.readStore store pos h.taken).dist +
         RbV.Model.MyersTraceback.popc ((RbV.Model.MyersTraceback.readStore store pos h.taken).mv &&& h.leftMask))
-    (hhi : (RbV.Model.MyersTraceback.readStore store pos h.taken).dist + w < 2 ^ wd) :
+    (hd : (RbV.Model.MyersTraceback.readStore store pos h.taken).dist < 2 ^ wd)
+    (hhi : (RbV.Model.MyersTraceback.readStore store pos h.taken).dist +
+        RbV.Model.MyersTraceback.popc ((RbV.Model.MyersTraceback.readStore store pos h.taken).mv &&& h.leftMask) -
+        RbV.Model.MyersTraceback.popc ((RbV.Model.MyersTraceback.readStore store pos h.taken).pv &&& h.leftMask) < 2 ^ wd) :
     RbV.Gen.SrcMyersTbShort2.new (w := w) (wd := wd) (m := m) (pos := pos) (states := RbV.Thm.GenSrcMyersLongStep.repS store) =
       RbV.Rs.Res.ok (RbV.Thm.GenSrcMyersSimple.rep (RbV.Model.MyersTraceback.Handler.new m (RbV.Model.MyersTraceback.readStore store pos)).state,
         RbV.Thm.GenSrcMyersSimple.rep (RbV.Model.MyersTraceback.Handler.new m (RbV.Model.MyersTraceback.readStore store pos)).left,
@@ -599,7 +604,7 @@ theorem traceback_handler_new_move_to_left_source_eq_model (w wd m pos : Nat) (s
         RbV.Thm.GenSrcMyersTb2.itOf (RbV.Thm.GenSrcMyersLongStep.repS store) pos
           (h.moveToLeft (RbV.Model.MyersTraceback.readStore store pos)).taken) :=
   ⟨RbV.Thm.GenSrcMyersTb2.new_eq_model w wd m pos store hm1 hmw hm64 hp,
-   RbV.Thm.GenSrcMyersTb2.moveToLeft_eq_model w wd pos store h hwd hp hlo hhi⟩
+   RbV.Thm.GenSrcMyersTb2.moveToLeft_eq_model w wd pos store h hwd hw63 hp hlo hd hhi⟩
 
 example : RbV.Gen.SrcMyersTbMask.adjustByMask (w := 8) (wd := 8) (pv := 0b0111) (mv := 0b1000) (dist := 3) (mask := 0b1110) =
     RbV.Rs.Res.ok 2 := by decide
